@@ -281,6 +281,29 @@ Section WithH.
     do adb <- pack_u16 (ad + 1);
     Ok (slice wire 0 10 ++ adb ++ skipn 12 wire ++ rr, fst tc, snd tc).
 
+  (* A Message object that is rendered several times (size probe, retransmission): to_wire
+     replaces self.tsig by the signed rdata and, for multi, stores the returned context in
+     self.tsig_ctx; the stored context is NOT an input of a later render - dns.tsig.sign gets the
+     tsig_ctx *argument* of that call.  One render per element of `nows` (the clock). *)
+  Record mobj := { o_tsig : tsig; o_ctx : option hctx }.
+
+  Definition render (wire : bytes) (k : key) (owner : name) (rmac : bytes) (ctx_arg : option hctx)
+             (multi : bool) (now : Z) (o : mobj) : res (bytes * mobj) :=
+    do r <- sign_message wire k owner (o_tsig o) now rmac ctx_arg multi;
+    Ok (fst (fst r), {| o_tsig := snd (fst r); o_ctx := if multi then snd r else o_ctx o |}).
+
+  Fixpoint render_seq (wire : bytes) (k : key) (owner : name) (rmac : bytes) (ctx_arg : option hctx)
+           (multi : bool) (nows : list Z) (o : mobj) : list (res (bytes * option hctx)) :=
+    match nows with
+    | [] => []
+    | now :: r =>
+        match render wire k owner rmac ctx_arg multi now o with
+        | Ok (w, o') => Ok (w, o_ctx o') :: render_seq wire k owner rmac ctx_arg multi r o'
+        | Lib e => [Lib e]
+        | Internal e => [Internal e]
+        end
+    end.
+
   (* a signed query and the response dns.message.make_response builds for it: the response is
      signed under the same key with request_mac = the query's MAC, whatever its TSIG error
      (`qwire` / `rbody`: the rendered query / response without TSIG) *)
@@ -718,6 +741,21 @@ Definition run (c : obs) : obs :=
           | Lib e | Internal e => E e
           end
       | _, _, _ => E eBadCase
+      end
+  (* 12: the same Message object rendered several times *)
+  | L [I 12; B wire; k; L owner; rd; L nows; B rmac; ctx; I multi; L tab] =>
+      match key_of_obs k, name_of_obs owner, tsig_of_obs rd, ctx_of_obs ctx, htable_of_obs tab with
+      | Some k, Some owner, Some rd, Some ctx, Some t =>
+          match rd, ctx with
+          | Ok rd, Ok ctx =>
+              L (map (obs_of_res (fun wc => L [B (fst wc); probe t (snd wc)]))
+                   (render_seq (H_tab t) wire k owner rmac ctx (multi =? 1)
+                      (flat_map (fun o => match o with I z => [z] | _ => [] end) nows)
+                      {| o_tsig := rd; o_ctx := None |}))
+          | Lib e, _ | Internal e, _ => E e
+          | _, Lib e | _, Internal e => E e
+          end
+      | _, _, _, _, _ => E eBadCase
       end
   (* 11: signed query -> make_response(query, tsig_error) -> rendered response *)
   | L [I 11; B qwire; B rbody; k; rdq; rdr; I now; L tab] =>
